@@ -14,6 +14,10 @@ import (
 	"verif/harness/internal/vrun"
 )
 
+// distinct abstract transitions exercised on the real code (summed over the
+// configurations; the replays run concurrently).
+var distinctNT int64
+
 // runner replays the behaviours of one configuration.
 type runner struct {
 	ctx *vrun.Ctx
@@ -190,7 +194,7 @@ func (r *runner) replayAll(g *graph, paths [][]int32, covered int, work string) 
 	}
 	ctx.AddExtra("edges_replayed", int64(covered))
 	ctx.AddExtra("steps_replayed", steps)
-	ctx.Ev.Coverage.DistinctNT += int64(covered)
+	atomic.AddInt64(&distinctNT, int64(covered))
 	if drifts > 0 {
 		ctx.AddExtra("model_drift", drifts)
 		ctx.SetExtra("model_drift_samples_"+name, driftSamples)
@@ -302,7 +306,7 @@ func RunC05(ctx *vrun.Ctx) error {
 	defer os.RemoveAll(work)
 	ctx.Ev.Coverage.Rule = "every distinct transition (edge) of the TLC state graph of Ffldb.tla replayed into a real database/ffldb instance counts once; states/transitions are TLC's distinct/generated counts"
 	ctx.Assume("goleveldb is an atomic, durable batch store (its internals are outside /repo)")
-	ctx.Assume("a process-crash image is a copy of the database directory taken between two I/O calls")
+	ctx.Assume("a process-crash image is a copy of the database directory taken between two I/O calls; a power loss is simulated by additionally cutting every block file back to its length at its last successful Sync (leveldb's own durability is trusted)")
 	ctx.Assume("the cursor of a bucket yields its keys in byte order followed by its nested buckets in byte order")
 	var runs []cfgRun
 	if ctx.Thorough {
@@ -310,6 +314,10 @@ func RunC05(ctx *vrun.Ctx) error {
 			{cfg: "kv.cfg", graph: true, timeout: 20 * time.Minute, heapGB: 8, coverage: true},
 			{cfg: "blk.cfg", graph: true, timeout: 20 * time.Minute, heapGB: 8, coverage: true},
 			{cfg: "iso.cfg", graph: true, timeout: 20 * time.Minute, heapGB: 8, coverage: true},
+			{cfg: "pow.cfg", graph: true, timeout: 20 * time.Minute, heapGB: 8, coverage: true},
+			{cfg: "cur.cfg", graph: true, timeout: 20 * time.Minute, heapGB: 8, coverage: true},
+			{cfg: "curmix.cfg", graph: true, timeout: 20 * time.Minute, heapGB: 8},
+			{cfg: "curmixr.cfg", graph: true, timeout: 20 * time.Minute, heapGB: 8},
 			{cfg: "isoblk.cfg", graph: true, timeout: 20 * time.Minute, heapGB: 8, coverage: true},
 			{cfg: "fault2.cfg", graph: true, timeout: 20 * time.Minute, heapGB: 8},
 			{cfg: "blk3.cfg", graph: true, timeout: 20 * time.Minute, heapGB: 8},
@@ -321,11 +329,51 @@ func RunC05(ctx *vrun.Ctx) error {
 	} else {
 		runs = []cfgRun{
 			{cfg: "blk.cfg", graph: true, maxPaths: 1500, timeout: 5 * time.Minute, heapGB: 6},
+			{cfg: "pow.cfg", graph: true, maxPaths: 600, timeout: 5 * time.Minute, heapGB: 6},
+			{cfg: "cur.cfg", graph: true, maxPaths: 800, timeout: 5 * time.Minute, heapGB: 6},
+			{cfg: "curmix.cfg", graph: true, maxPaths: 800, timeout: 5 * time.Minute, heapGB: 6},
 			{cfg: "iso.cfg", graph: true, maxPaths: 600, timeout: 5 * time.Minute, heapGB: 6},
 			{cfg: "isoblk.cfg", graph: true, maxPaths: 1000, timeout: 5 * time.Minute, heapGB: 6},
-			{cfg: "kv.cfg", graph: true, maxPaths: 1500, timeout: 5 * time.Minute, heapGB: 6},
+			{cfg: "kvq.cfg", graph: true, maxPaths: 1500, timeout: 5 * time.Minute, heapGB: 6},
 		}
 	}
+	if sel := os.Getenv("VERIF_FFLDB_CFGS"); sel != "" { // development aid: restrict the configurations
+		var keep []cfgRun
+		for _, cr := range runs {
+			for _, s := range strings.Split(sel, ",") {
+				if cr.cfg == s {
+					keep = append(keep, cr)
+				}
+			}
+		}
+		runs = keep
+	}
+	// The treap check is independent: it runs beside the ffldb pipeline.
+	treapDone := make(chan error, 1)
+	go func() {
+		defer func() {
+			if p := recover(); p != nil {
+				treapDone <- fmt.Errorf("treap: %v", p)
+			}
+		}()
+		treapPaths := 1500
+		if ctx.Thorough {
+			treapPaths = 0
+		}
+		if os.Getenv("VERIF_FFLDB_CFGS") == "" || strings.Contains(os.Getenv("VERIF_FFLDB_CFGS"), "treap") {
+			treapCfgs := []string{"treap_iter.cfg", "treap_imm.cfg"}
+			if ctx.Thorough {
+				treapCfgs = append(treapCfgs, "treap_iter_big.cfg", "treap_imm_big.cfg")
+			}
+			for _, cfg := range treapCfgs {
+				if err := runTreap(ctx, cfg, treapPaths); err != nil {
+					treapDone <- err
+					return
+				}
+			}
+		}
+		treapDone <- nil
+	}()
 	// TLC runs one configuration at a time; the replay of a configuration
 	// overlaps with the model checking of the next one.
 	type job struct {
@@ -373,16 +421,35 @@ func RunC05(ctx *vrun.Ctx) error {
 	if firstErr != nil {
 		return firstErr
 	}
+	if err := <-treapDone; err != nil {
+		return err
+	}
+	sims := []struct {
+		cfg        string
+		num, depth int
+	}{{"kv.cfg", 300, 26}, {"blk3.cfg", 300, 60}}
+	if ctx.Thorough {
+		sims = sims[:0]
+	}
+	for _, sc := range sims {
+		if os.Getenv("VERIF_FFLDB_CFGS") != "" && !strings.Contains(os.Getenv("VERIF_FFLDB_CFGS"), "sim") {
+			break
+		}
+		if err := simCfg(ctx, sc.cfg, sc.num, sc.depth, work); err != nil {
+			return err
+		}
+	}
 	if ctx.Thorough {
 		for _, sc := range []struct {
 			cfg        string
 			num, depth int
-		}{{"blkbig.cfg", 1500, 90}, {"kvblk.cfg", 1500, 80}, {"kv3.cfg", 1500, 40}, {"iso2.cfg", 1500, 40}} {
+		}{{"blkbig.cfg", 1500, 90}, {"kvblk.cfg", 1500, 80}, {"kv3.cfg", 1500, 40}, {"iso2.cfg", 1500, 40}, {"cur2.cfg", 3000, 45}} {
 			if err := simCfg(ctx, sc.cfg, sc.num, sc.depth, work); err != nil {
 				return err
 			}
 		}
 	}
+	ctx.Ev.Coverage.DistinctNT += atomic.SwapInt64(&distinctNT, 0)
 	ctx.Ev.Coverage.Exhaustive = false
 	ctx.Ev.Coverage.Explanation = "TLC explores each listed configuration of Ffldb.tla exhaustively; the real code is driven along paths that cover the state graph's transitions (all of them in the thorough tier for the graph configurations, a seeded sample in the quick tier) plus simulated behaviours of the larger configurations"
 	return nil
